@@ -670,11 +670,19 @@ func (c *Collection) FindOneAndDelete(ctx context.Context, filter interface{}, o
 	// delete documents, the projection is applied within the transaction so
 	// that a failing projection aborts the write
 	res, err := useTransaction(ctx, c.engine, true, func(txn *Transaction) (interface{}, error) {
+		restore := txn.savepoint()
 		res, err := txn.Delete(c.handle, query, sort, 0, 1)
 		if err != nil {
 			return nil, err
 		}
-		return projectModified(res, false, projection)
+		doc, err := projectModified(res, false, projection)
+		if err != nil {
+			// undo the write (matters within a session transaction, which
+			// is not aborted by the error)
+			restore()
+			return nil, err
+		}
+		return doc, nil
 	})
 	if err != nil {
 		return &SingleResult{err: err}
@@ -760,11 +768,19 @@ func (c *Collection) FindOneAndReplace(ctx context.Context, filter, replacement 
 	res, err := useTransaction(ctx, c.engine, true, func(txn *Transaction) (interface{}, error) {
 		// the projection is applied within the transaction so that a
 		// failing projection aborts the write
+		restore := txn.savepoint()
 		res, err := txn.Replace(c.handle, query, sort, repl, upsert)
 		if err != nil {
 			return nil, err
 		}
-		return projectModified(res, returnAfter, projection)
+		doc, err := projectModified(res, returnAfter, projection)
+		if err != nil {
+			// undo the write (matters within a session transaction, which
+			// is not aborted by the error)
+			restore()
+			return nil, err
+		}
+		return doc, nil
 	})
 	if err != nil {
 		return &SingleResult{err: err}
@@ -855,11 +871,19 @@ func (c *Collection) FindOneAndUpdate(ctx context.Context, filter, update interf
 	res, err := useTransaction(ctx, c.engine, true, func(txn *Transaction) (interface{}, error) {
 		// the projection is applied within the transaction so that a
 		// failing projection aborts the write
+		restore := txn.savepoint()
 		res, err := txn.Update(c.handle, query, sort, upd, 0, 1, upsert, arrayFilters)
 		if err != nil {
 			return nil, err
 		}
-		return projectModified(res, returnAfter, projection)
+		doc, err := projectModified(res, returnAfter, projection)
+		if err != nil {
+			// undo the write (matters within a session transaction, which
+			// is not aborted by the error)
+			restore()
+			return nil, err
+		}
+		return doc, nil
 	})
 	if err != nil {
 		return &SingleResult{err: err}
